@@ -101,23 +101,34 @@ func main() {
 		os.Exit(1)
 	}
 	if refInv, err := readInventory(filepath.Join(*verif, "ref", "functions.tsv")); err == nil && *gen == "" {
-		if ov := normalizeNewHelpers(p, refInv); len(ov) > 0 {
-			if p2, err := LoadOverlay(*repo, *tests, env, ov); err == nil {
-				p = p2
-				normalizeNotes = append(normalizeNotes, fmt.Sprintf("the analysis ran on an overlay of %d file(s) with the new helpers inlined; reported line numbers refer to the overlay", len(ov)))
-				if os.Getenv("KMIPSA_DUMP_OVERLAY") != "" {
-					for fn, b := range ov {
-						_ = os.WriteFile(filepath.Join(os.Getenv("KMIPSA_DUMP_OVERLAY"), filepath.Base(fn)), b, 0o644)
-					}
-				}
-			} else {
-				normalizeNotes = append(normalizeNotes, fmt.Sprintf("helper normalisation dropped: the overlay does not load (%v)", err))
-				if os.Getenv("KMIPSA_DUMP_OVERLAY") != "" {
-					for fn, b := range ov {
-						_ = os.WriteFile(filepath.Join(os.Getenv("KMIPSA_DUMP_OVERLAY"), filepath.Base(fn)), b, 0o644)
-					}
+		// up to three rounds: a helper called from another helper, or used as a method value, needs a second pass
+		total := map[string][]byte{}
+		for round := 0; round < 3; round++ {
+			ov := normalizeNewHelpers(p, refInv, total)
+			if len(ov) == 0 {
+				break
+			}
+			merged := map[string][]byte{}
+			for k, v := range total {
+				merged[k] = v
+			}
+			for k, v := range ov {
+				merged[k] = v
+			}
+			if os.Getenv("KMIPSA_DUMP_OVERLAY") != "" {
+				for fn, b := range merged {
+					_ = os.WriteFile(filepath.Join(os.Getenv("KMIPSA_DUMP_OVERLAY"), fmt.Sprintf("r%d.%s", round, filepath.Base(fn))), b, 0o644)
 				}
 			}
+			p2, err := LoadOverlay(*repo, *tests, env, merged)
+			if err != nil {
+				normalizeNotes = append(normalizeNotes, fmt.Sprintf("helper normalisation round %d dropped: the overlay does not load (%v)", round+1, err))
+				break
+			}
+			p, total = p2, merged
+		}
+		if len(total) > 0 {
+			normalizeNotes = append(normalizeNotes, fmt.Sprintf("the analysis ran on an overlay of %d file(s) with the new helpers inlined; reported line numbers refer to the overlay", len(total)))
 		}
 	}
 	if *gen == "registry" {
